@@ -191,6 +191,15 @@ fn check_path(p: &str, rotate: bool) -> Result<usize, (String, String)> {
     lg::log_info(&*logger, "one");
     lg::log_info(&*logger, "two-two-two-two-two");
     lg::log_info(&*logger, "three");
+    lg::log_info(&*logger, "four-four-four-four");
+    lg::log_info(&*logger, "five");
+    let mut listed: Vec<PathBuf> = handle
+        .existing_log_files(&LogfileSelector::default().with_r_current())
+        .map_err(|e| ("listing!=directory".to_string(), format!("{p:?}: {e}")))?
+        .iter()
+        .map(|q| norm(q))
+        .collect();
+    listed.sort();
     handle.shutdown();
     drop(logger);
     drop(handle);
@@ -222,7 +231,7 @@ fn check_path(p: &str, rotate: bool) -> Result<usize, (String, String)> {
             None => (name.clone(), String::new()),
         };
         let _ = name;
-        let mut v: Vec<PathBuf> = ["r00000", "rCURRENT"].iter().map(|i| target.with_file_name(format!("{stem}_{i}{ext}"))).collect();
+        let mut v: Vec<PathBuf> = ["r00000", "r00001", "rCURRENT"].iter().map(|i| target.with_file_name(format!("{stem}_{i}{ext}"))).collect();
         v.sort();
         v
     } else {
@@ -232,7 +241,10 @@ fn check_path(p: &str, rotate: bool) -> Result<usize, (String, String)> {
         return Err(("path!=spec".into(), format!("a logger built from FileSpec::try_from({p:?}) (rotate={rotate}) wrote {files:?}, expected {expected:?}")));
     }
     let total: usize = files.iter().map(|f| std::fs::read(f).map_or(0, |b| b.len())).sum();
-    if total != "one\ntwo-two-two-two-two\nthree\n".len() {
+    if listed != files {
+        return Err(("listing!=directory".into(), format!("a logger built from FileSpec::try_from({p:?}) (rotate={rotate}): existing_log_files = {listed:?}, files = {files:?}")));
+    }
+    if total != "one\ntwo-two-two-two-two\nthree\nfour-four-four-four\nfive\n".len() {
         return Err(("path!=spec".into(), format!("{p:?}: files hold {total} bytes")));
     }
     Ok(files.len())
